@@ -343,7 +343,7 @@ def general_form(rng: random.Random, big=False) -> dict:
         st["default_language"] = rng.choice(langs)
     if st:
         form["settings"] = [st]
-    if rng.random() < 0.08:
+    if rng.random() < (0.2 if st.get("namespaces") else 0.06):
         form["entities"] = [{"dataset": rng.choice(["trees", "people"]), "label": "'x'"}]
     if rng.random() < 0.6:
         inject_entities(rng, form)
